@@ -209,11 +209,15 @@ func isMetaPrefix(p []byte) bool {
 }
 
 // expected events per the property, computed from the generator's own segment list
-func expectEvents(segs []jseg, em, xm string) string {
+func expectEvents(segs []jseg, em, xm string, fills ...int) string {
 	var sb strings.Builder
 	off := 2 // after SOI
-	for _, s := range segs {
+	for i, s := range segs {
 		b := s.bytes()
+		if i < len(fills) {
+			// 0xFF fill bytes in front of the marker (any marker may be preceded by any number of them, T.81 B.1.1.2)
+			off += fills[i]
+		}
 		switch s.kind {
 		case "exif":
 			if em != "nil" {
@@ -274,18 +278,25 @@ func runC10(c *Ctx) error {
 	for i := 0; i < nw; i++ {
 		n := c.Rng.Intn(7)
 		var segs []jseg
+		fills := make([]int, n)
 		for j := 0; j < n; j++ {
 			segs = append(segs, genSeg(c))
+			// a fifth of the sequences carry fill bytes in front of some of their markers
+			if i%5 == 4 && c.Rng.Intn(2) == 0 {
+				fills[j] = 1 + c.Rng.Intn(3)
+				c.Stat("seg.fill-bytes")
+			}
 		}
 		b := []byte{0xFF, 0xD8}
-		for _, s := range segs {
+		for j, s := range segs {
+			b = append(b, bytes.Repeat([]byte{0xFF}, fills[j])...)
 			b = append(b, s.bytes()...)
 			c.Stat("seg." + s.kind)
 		}
 		b = append(b, tailData()...)
 		xm := []string{"nil", "n0", "all", "n5", "n1", "n200"}[c.Rng.Intn(6)]
 		em := []string{"all", "all", "nil"}[c.Rng.Intn(3)]
-		addCase(b, em, xm, expectEvents(segs, em, xm), "wellformed")
+		addCase(b, em, xm, expectEvents(segs, em, xm, fills...), "wellformed")
 	}
 	// malformed stream: model comparison only
 	seeds := [][]byte{
